@@ -443,13 +443,41 @@ TS_TEXTS = ['-0.5', '-0.0', '-0.000000001', '0.5', '1.234567891e-05', '1.5e3', '
             '1.00000000a', '1.0000000000a', '١٢٣.٤٥٦']
 
 
+TS_FORMS = ['100', '100.5', '1e2']    # integer, aaaa.bbbb, float spelling
+
+
+def ts_presence_mutations(doc):
+    """timestamp presence mixed inside the groups of every family, in both orders and for all three timestamp forms:
+    (a) the document as generated, with the timestamp of sample i removed (if it has one) or added (if it has none), at every
+    sample position; (b) per family and form: every sample stamped alike, then sample i bare (stamped-then-bare for i > 0, bare-then-
+    stamped for i = 0 and at the following sample), and every sample bare, then sample i stamped"""
+    pos = [(fi, gi, k) for fi, f in enumerate(doc.fams) for gi, g in enumerate(f.groups) for k in range(len(g.samples))]
+    for fi, gi, k in pos:
+        s = doc.fams[fi].groups[gi].samples[k]
+        for form in ([None] if s.ts is not None else TS_FORMS):
+            d = doc.copy()
+            d.fams[fi].groups[gi].samples[k].ts = form
+            yield 'ts-' + ('removed' if form is None else 'added'), d
+    for fi, f in enumerate(doc.fams):
+        mine = [(gi, k) for (fj, gi, k) in pos if fj == fi]
+        for form in TS_FORMS:
+            for gi, k in mine:
+                for base, one, kind in ((form, None, 'ts-all-but-one'), (None, form, 'ts-only-one')):
+                    d = doc.copy()
+                    for g in d.fams[fi].groups:
+                        for x in g.samples:
+                            x.ts = base
+                    d.fams[fi].groups[gi].samples[k].ts = one
+                    yield kind, d
+
+
 def run_om(ctx):
     rng = ctx.rng
     quick = ctx.tier == 'quick'
     wide = 3 if ctx.broken else 1
     ctx.rule = ((ctx.rule + ' | ') if ctx.rule else '') + (
         'OM: corpus of witnesses; grammar-generated documents of all 8 family types (omgen) × every single line deletion / duplication / '
-        'adjacent swap / insertion at every gap, token-level mutations, truncation at EVERY offset of short documents; native-histogram-'
+        'adjacent swap / insertion at every gap, token-level mutations, the timestamp of sample i removed / added (3 forms) at every sample position and per family all-but-one / only-one stamped, truncation at EVERY offset of short documents; native-histogram-'
         'shaped documents; unstructured strings over the format\'s special characters incl. non-ASCII whitespace and Unicode digits; each '
         'input parsed twice under a watchdog; non-trivial = distinct text that is accepted or longer than 8 characters')
     corecheck.run(ctx, 300 if quick else 5000)
@@ -492,6 +520,19 @@ def run_om(ctx):
                 b.doc('\n'.join(ls) + '\n', leg, 'line-' + kind)
             for _ in range(6 if quick else 30):
                 b.doc(token_mutation(rng, text), leg, 'token')
+            if len(b.reqs) > 1500:
+                b.flush()
+        b.flush()
+        # 3b. timestamp presence mixed inside groups: every family type, every sample position, both orders, all three forms
+        for i in range((16 if quick else 160) * wide):
+            d = omgen.gen_doc(rng, types=[omgen.TYPES[i % 8]], nfam=1) if i % 4 else \
+                omgen.gen_doc(rng, types=[omgen.TYPES[(i // 4) % 8], omgen.TYPES[(i // 4 + 3) % 8]], nfam=2)
+            leg = rng.random() < 0.25
+            muts = list(ts_presence_mutations(d))
+            if quick and len(muts) > 150:
+                muts = rng.sample(muts, 150)
+            for kind, d2 in muts:
+                b.doc(d2.render(), leg, kind)
             if len(b.reqs) > 1500:
                 b.flush()
         b.flush()
